@@ -149,7 +149,7 @@ class C02(Prop):
                    'locals is <= max depth - 2; truthfulness is required for everything reported',
                    'include/exclude are given as lists of prefixes (the shape the config module itself produces)',
                    'tracepoint args on the snapshot must not contradict the configured ones (normalised args accepted)']
-    quick_examples = 1200
+    quick_examples = 800
     thorough_examples = 4000
     floors = {'compared': 0.5, 'all_frame': 0.2, 'has_self': 0.15, 'watch': 0.15, 'container_local': 0.2,
               'app_stack_depth>=2': 0.3, 'hits_in_several_threads': 0.05,
@@ -169,9 +169,13 @@ class C02(Prop):
             'values': values.value_recipes(FRIENDLY, min_nodes=6, max_nodes=14 if big else 10, max_items=12,
                                            str_keys_only=True),
             'frame_type': st.sampled_from(['all_frame', 'single_frame', 'all_frame', 'no_frame', None, 'bogus']),
-            'watches': st.lists(st.sampled_from(['n', 'n + 1', 'h1', 'h2', 'a', '[n, n]', 'self', 'self.seed', 'G_INT',
-                                                   'g_helper', 'G_LIST', 'G_STR']),
-                                max_size=2, unique=True),
+            'watches': st.one_of(
+                st.lists(st.sampled_from(['n', 'n + 1', 'h1', 'h2', 'a', '[n, n]', 'self', 'self.seed', 'G_INT',
+                                          'g_helper', 'G_LIST', 'G_STR']), max_size=2, unique=True),
+                # several computed watches whose results are short-lived objects of the same type and size
+                st.lists(st.sampled_from(['(n, 0)', '(n, 1)', '(n, 2)', 'float(n)', 'float(n + 1)', 'float(n + 2)',
+                                          '[n]', '[n + 1]', 'str(n) + "a"', 'str(n) + "b"', '{"k": n}', '{"k": n + 1}']),
+                         min_size=2, max_size=5, unique=True)),
             'route': st.sampled_from(['triggers', 'response']),
             'cfg': fd({
                 'APP_ROOT': st.sampled_from(['/app', '/app/pkg', '/nowhere', '/app/pkg/mod']),
